@@ -239,3 +239,94 @@ pub fn exec_cuckoo(m: &HashMap<String, String>) -> String {
         extra
     )
 }
+
+// ---------------------------------------------------------------- lossy counter
+use pdatastructs::countminsketch::CountMinSketch;
+use pdatastructs::topk::cmsheap::CMSHeap;
+use pdatastructs::topk::lossycounter::LossyCounter;
+
+fn triples(s: &str) -> Vec<(u64, usize, usize)> {
+    // "k:f:d,k:f:d"
+    s.split(',')
+        .filter(|x| !x.trim().is_empty())
+        .map(|t| {
+            let v: Vec<u64> = t.split(':').map(|x| x.trim().parse().unwrap()).collect();
+            (v[0], v[1] as usize, *v.get(2).unwrap_or(&0) as usize)
+        })
+        .collect()
+}
+
+pub fn exec_lossy(m: &HashMap<String, String>) -> String {
+    let width: usize = m["width"].parse().unwrap();
+    let n: usize = m["n"].parse().unwrap();
+    let eps = 1.0 / (width as f64);
+    let known = triples(m.get("known").map(|s| s.as_str()).unwrap_or(""));
+    let mut c = LossyCounter::<u64>::verif_from_parts(eps, width, n, known);
+    let op = m["op"].as_str();
+    let mut result = String::from("null");
+    let mut out_keys: Vec<u64> = vec![];
+    match op {
+        "add" => {
+            let r = std::panic::catch_unwind(std::panic::AssertUnwindSafe(|| c.add(m["y"].parse().unwrap())));
+            result = match r {
+                Ok(b) => format!("\"{}\"", b),
+                Err(_) => "\"panic\"".into(),
+            };
+        }
+        "query" => {
+            let thr = m["a64"].parse::<f64>().unwrap() / 64.0;
+            out_keys = c.query(thr).collect();
+            out_keys.sort();
+        }
+        "clear" => c.clear(),
+        _ => {}
+    }
+    let mut kn = c.verif_known();
+    kn.sort();
+    format!(
+        "{{\"result\":{},\"n\":{},\"width\":{},\"epsilon\":{},\"known\":[{}],\"query\":{}}}",
+        result,
+        c.n(),
+        c.width(),
+        c.epsilon(),
+        kn.iter().map(|(k, f, d)| format!("[{},{},{}]", k, f, d)).collect::<Vec<_>>().join(","),
+        json_list(&out_keys)
+    )
+}
+
+// ---------------------------------------------------------------- CMSHeap
+pub fn exec_heap(m: &HashMap<String, String>) -> String {
+    let k: usize = m["k"].parse().unwrap();
+    // a 1x1 sketch: `add` returns cell+1, so any estimate c is realised by presetting the cell to c-1
+    let mut cms = CountMinSketch::<u64>::with_params(1, 1);
+    let c: usize = m.get("c").map(|s| s.parse().unwrap()).unwrap_or(1);
+    cms.verif_table_mut()[0] = c.saturating_sub(1);
+    let pairs = |s: &str| -> Vec<(u64, usize)> { triples(s).into_iter().map(|(a, b, _)| (a, b)).collect() };
+    let mut h = CMSHeap::verif_from_parts(k, cms, pairs(m.get("map").map(|s| s.as_str()).unwrap_or("")), pairs(m.get("tree").map(|s| s.as_str()).unwrap_or("")));
+    let op = m["op"].as_str();
+    let mut result = String::from("\"ok\"");
+    match op {
+        "add" => {
+            let y: u64 = m["y"].parse().unwrap();
+            if std::panic::catch_unwind(std::panic::AssertUnwindSafe(|| h.add(y))).is_err() {
+                result = "\"panic\"".into();
+            }
+        }
+        "clear" => h.clear(),
+        _ => {}
+    }
+    let (mut mp, tr) = h.verif_parts();
+    mp.sort();
+    let it: Vec<u64> = h.iter().collect();
+    let f = |v: &Vec<(u64, usize)>| v.iter().map(|(a, b)| format!("[{},{}]", a, b)).collect::<Vec<_>>().join(",");
+    format!(
+        "{{\"result\":{},\"map\":[{}],\"tree\":[{}],\"iter\":{},\"is_empty\":{},\"k\":{},\"debug_assertions\":{}}}",
+        result,
+        f(&mp),
+        f(&tr),
+        json_list(&it),
+        h.is_empty(),
+        h.k(),
+        cfg!(debug_assertions)
+    )
+}
